@@ -43,6 +43,10 @@ type Op struct {
 	Lp     bool   `json:"lp,omitempty"`      // data: wrapped in an LpPacket with a PIT token
 	Ms     int    `json:"ms,omitempty"`
 	K      int    `json:"k,omitempty"` // fire: k-th due timer; reply: k-th received Interest
+	// race: the sub-operations (express / data / nack / fire) run as concurrent tasks; a cooperative scheduler lets
+	// one of them run at a time and switches at the engine's lock acquisitions, Sched picks who continues
+	Sub   []Op  `json:"sub,omitempty"`
+	Sched []int `json:"sched,omitempty"`
 }
 
 type Engine struct{}
@@ -86,6 +90,10 @@ func (Engine) Generate(prop string, r *kit.Rand, tier string) *kit.Scenario[Conf
 	case r.Chance(0.03):
 		sc.Config.Harness = "real"
 	}
+	nrace := 0
+	if sc.Config.Harness == "" && r.Chance(0.3) {
+		nrace = r.Range(1, 4)
+	}
 	var pool []string
 	nexp, nint := 0, 0
 	for i := 0; i < n; i++ {
@@ -126,6 +134,34 @@ func (Engine) Generate(prop string, r *kit.Rand, tier string) *kit.Scenario[Conf
 				sc.Ops = append(sc.Ops, Op{Op: "reply", K: r.Intn(nint)})
 			}
 		}
+	}
+	for k := 0; k < nrace; k++ {
+		// typically: time has just passed (timers are due), then a timer fires while the application expresses the
+		// same name again and/or the Data arrives
+		ro := Op{Op: "race"}
+		nsub := r.Range(2, 3)
+		for j := 0; j < nsub; j++ {
+			switch r.Weighted([]int{4, 3, 1, 4}) {
+			case 0:
+				so := Op{Op: "express", Name: genName(r, pool), CBP: r.Chance(0.3), LifeMs: kit.Pick(r, []int{0, 50, 100, 500})}
+				pool = append(pool, so.Name)
+				ro.Sub = append(ro.Sub, so)
+			case 1:
+				ro.Sub = append(ro.Sub, Op{Op: "data", Name: genName(r, pool), Var: r.Intn(2)})
+			case 2:
+				ro.Sub = append(ro.Sub, Op{Op: "nack", Name: genName(r, pool)})
+			case 3:
+				ro.Sub = append(ro.Sub, Op{Op: "fire", K: r.Intn(4)})
+			}
+		}
+		for j := 0; j < 16; j++ {
+			ro.Sched = append(ro.Sched, r.Intn(6))
+		}
+		at := r.Intn(len(sc.Ops) + 1)
+		pre := Op{Op: "advance", Ms: kit.Pick(r, []int{0, 60, 110, 111, 510, 4010})}
+		ops := append([]Op(nil), sc.Ops[:at]...)
+		ops = append(ops, pre, ro)
+		sc.Ops = append(ops, sc.Ops[at:]...)
 	}
 	sc.Ops = append(sc.Ops, Op{Op: "final"})
 	return sc
@@ -210,7 +246,10 @@ type simTimer struct {
 
 func (t *simTimer) Now() time.Time        { return t.now }
 func (t *simTimer) Sleep(d time.Duration) { panic("harness: Sleep is not simulated") }
-func (t *simTimer) Nonce() []byte         { t.seq++; return []byte{1, 2, 3, 4, 5, 6, byte(t.seq >> 8), byte(t.seq)} }
+func (t *simTimer) Nonce() []byte {
+	t.seq++
+	return []byte{1, 2, 3, 4, 5, 6, byte(t.seq >> 8), byte(t.seq)}
+}
 func (t *simTimer) Schedule(d time.Duration, f func()) func() error {
 	t.seq++
 	ev := &simEvent{at: t.now.Add(d), seq: t.seq, f: f}
@@ -374,6 +413,13 @@ func (e Engine) runBody(t *testing.T, ctx *kit.Ctx, sc *kit.Scenario[Config, Op]
 	maxPending := 0
 	dg := kit.NewDigest()
 
+	// the application's result callback is a scheduling point too while calls race (the engine runs it with its
+	// lock held; code that runs it without the lock lets the other calls in)
+	appYield := func() {
+		if y := basic.VerifYield; y != nil {
+			y("app.callback")
+		}
+	}
 	checkOnce := func() *kit.Result {
 		for _, p := range pends {
 			if len(p.results) > 1 {
@@ -425,6 +471,7 @@ func (e Engine) runBody(t *testing.T, ctx *kit.Ctx, sc *kit.Scenario[Config, Op]
 					r.kind = fmt.Sprintf("other-%d", a.Result)
 				}
 				cbs = append(cbs, r)
+				appYield()
 			})
 			if err != nil {
 				return fail("C20/express-failed", "", "Express(%s) returned %v", op.Name, err)
@@ -472,6 +519,204 @@ func (e Engine) runBody(t *testing.T, ctx *kit.Ctx, sc *kit.Scenario[Config, Op]
 				ev.f()
 				ctx.Probe("timer-fired")
 			}
+		case "race":
+			if useDummy || useReal {
+				break
+			}
+			ctx.Fault("concurrent-engine-calls")
+			type rmsg struct {
+				task int
+				tag  string
+				done bool
+				pan  any
+				site string
+			}
+			nt := len(op.Sub)
+			toSched := make(chan rmsg)
+			resume := make([]chan struct{}, nt)
+			cur := 0
+			basic.VerifYield = func(tag string) {
+				me := cur
+				toSched <- rmsg{task: me, tag: tag}
+				<-resume[me]
+			}
+			type rdata struct {
+				name string
+				raw  []byte
+			}
+			var raceData []rdata // the Data packets of this race
+			raceNack := map[string]bool{}
+			for ti := range op.Sub {
+				ti := ti
+				so := op.Sub[ti]
+				resume[ti] = make(chan struct{})
+				go func() {
+					<-resume[ti]
+					defer func() {
+						if p := recover(); p != nil {
+							toSched <- rmsg{task: ti, done: true, pan: p, site: kit.PanicSite()}
+							return
+						}
+						toSched <- rmsg{task: ti, done: true}
+					}()
+					switch so.Op {
+					case "express":
+						p := &pend{id: len(pends), name: so.Name, cbp: so.CBP, t0: nowT(), life: 4 * time.Second}
+						cfg := &ndn.InterestConfig{CanBePrefix: so.CBP, Nonce: utils.IdPtr(uint64(1000 + len(pends)))}
+						if so.LifeMs > 0 {
+							p.life = time.Duration(so.LifeMs) * time.Millisecond
+							cfg.Lifetime = utils.IdPtr(p.life)
+						}
+						ei, err := spec.Spec{}.MakeInterest(mkName(so.Name), cfg, nil, nil)
+						if err != nil {
+							panic("harness: MakeInterest: " + err.Error())
+						}
+						pends = append(pends, p)
+						id := p.id
+						eng.Express(ei, func(a ndn.ExpressCallbackArgs) {
+							r := cbRec{id: id}
+							switch a.Result {
+							case ndn.InterestResultData:
+								r.kind = "data"
+								if a.Data != nil {
+									r.data = a.Data.Name().String()
+								}
+								r.raw = append([]byte(nil), a.RawData.Join()...)
+							case ndn.InterestResultNack:
+								r.kind = "nack"
+							case ndn.InterestResultTimeout:
+								r.kind = "timeout"
+							default:
+								r.kind = fmt.Sprintf("other-%d", a.Result)
+							}
+							cbs = append(cbs, r)
+							appYield()
+						})
+					case "data":
+						feedPkt(append([]byte(nil), dataWire(so.Name, so.Var)...))
+					case "nack":
+						ei, _ := spec.Spec{}.MakeInterest(mkName(so.Name), &ndn.InterestConfig{Nonce: utils.IdPtr(uint64(7))}, nil, nil)
+						lp := &spec.Packet{LpPacket: &spec.LpPacket{Nack: &spec.NetworkNack{Reason: spec.NackReasonNoRoute}, Fragment: ei.Wire}}
+						encoder := spec.PacketEncoder{}
+						encoder.Init(lp)
+						feedPkt(encoder.Encode(lp).Join())
+					case "fire":
+						if d := timer.due(); len(d) > 0 {
+							ev := d[so.K%len(d)]
+							if !ev.fired {
+								ev.fired = true
+								ev.f()
+							}
+						}
+					}
+				}()
+				switch so.Op {
+				case "data":
+					raceData = append(raceData, rdata{so.Name, dataWire(so.Name, so.Var)})
+				case "nack":
+					raceNack[so.Name] = true
+				}
+			}
+			alive := make([]bool, nt)
+			blocked := make([]bool, nt)
+			for i := range alive {
+				alive[i] = true
+			}
+			nalive, si, stuckRounds := nt, 0, 0
+			var racePanic *rmsg
+			for nalive > 0 {
+				var cand []int
+				for i := 0; i < nt; i++ {
+					if alive[i] && !blocked[i] {
+						cand = append(cand, i)
+					}
+				}
+				if len(cand) == 0 {
+					stuckRounds++
+					if stuckRounds > 4*nt {
+						basic.VerifYield = nil
+						return fail("C20/deadlock", "", "every unfinished concurrent engine call is blocked on an engine lock")
+					}
+					for i := range blocked {
+						blocked[i] = false
+					}
+					continue
+				}
+				pick := cand[0]
+				if si < len(op.Sched) {
+					pick = cand[op.Sched[si]%len(cand)]
+					si++
+				}
+				cur = pick
+				resume[pick] <- struct{}{}
+				var m rmsg
+				select {
+				case m = <-toSched:
+				case <-time.After(20 * time.Second):
+					basic.VerifYield = nil
+					return fail("C20/engine-call-stuck", "", "a concurrent engine call neither reached a scheduling point nor returned within 20 s")
+				}
+				if m.done {
+					alive[m.task] = false
+					nalive--
+					if m.pan != nil && racePanic == nil {
+						mm := m
+						racePanic = &mm
+					}
+					stuckRounds = 0
+					for i := range blocked {
+						blocked[i] = false
+					}
+					continue
+				}
+				if strings.HasPrefix(m.tag, "blocked:") {
+					blocked[m.task] = true
+					continue
+				}
+				stuckRounds = 0
+				for i := range blocked {
+					blocked[i] = false
+				}
+			}
+			basic.VerifYield = nil
+			if racePanic != nil {
+				if strings.HasPrefix(racePanic.site, "harness:") {
+					panic(racePanic.pan)
+				}
+				return fail("C20/panic", racePanic.site, "%v", racePanic.pan)
+			}
+			// oracle of a race: every result must be justified by one of the concurrent stimuli
+			nowR := nowT()
+			for _, cb := range cbs {
+				p := pends[cb.id]
+				p.results = append(p.results, cb.kind)
+				kinds[cb.kind] = true
+				switch cb.kind {
+				case "data":
+					ok := false
+					for _, rd := range raceData {
+						if (p.name == rd.name || (p.cbp && isPrefix(p.name, rd.name))) && mkName(rd.name).String() == cb.data && string(rd.raw) == string(cb.raw) {
+							ok = true
+						}
+					}
+					if !ok {
+						return fail("C20/resolved-with-unsatisfying-data", "race", "Interest #%d %s resolved with Data %s, which none of the concurrently arriving Data packets justifies", p.id, p.name, cb.data)
+					}
+				case "nack":
+					if !raceNack[p.name] {
+						return fail("C20/nack-for-other-name", "race", "Interest #%d %s resolved with Nack, no Nack for that name arrived", p.id, p.name)
+					}
+				case "timeout":
+					if nowR.Before(p.t0.Add(p.life)) {
+						return fail("C20/timeout-before-lifetime", "race", "Interest #%d %s timed out at %v, lifetime ends %v", p.id, p.name, nowR.Sub(start), p.t0.Add(p.life).Sub(start))
+					}
+				}
+			}
+			cbs = cbs[:0]
+			if r := checkOnce(); r != nil {
+				return r
+			}
+			ctx.Probe("race-of-engine-calls")
 		case "attach":
 			h := op.Name
 			err := eng.AttachHandler(mkName(h), func(a ndn.InterestHandlerArgs) {
